@@ -214,6 +214,55 @@ theorem C09_limit_caps_groups {α : Type} (off lim : Option Nat) (rows : List α
       | none => rows.length - off.getD 0 :=
   ⟨limitRows_sublist off lim rows, limitRows_length off lim rows⟩
 
+/-- **What LIMIT / OFFSET report.** Take the listed final table of any run (any split of the rows
+over flows — the per-flow partials are merged before anything is cut), put it in *any* order
+(`sorted`: the merger's comparison is not part of this property) and cut it with OFFSET / LIMIT:
+every group that is still reported carries, metric by metric, the reference fold over **all** rows
+of that group from **all** flows. A flow may therefore not drop a group of its partial before the
+merge (tie: `tools/consts/C09.py`, "AggregateOp::run emits the sink's partial as it is"). PARTIAL
+w.r.t. `GoodFlow`. -/
+theorem C09_limit_reported_groups_partial (p : Plan) (flows : List (List TRow))
+    (hg : ∀ fl ∈ flows, GoodFlow p fl) (rows sorted : List (Key × List Out))
+    (hrows : finalTable p (runFlows p flows) = some rows) (hsub : ∀ e ∈ sorted, e ∈ rows)
+    (off lim : Option Nat) :
+    ∀ e ∈ limitRows off lim sorted,
+      groupRows p flows e.1 ≠ [] ∧ e.2 = p.metrics.map fun m => spec m (groupRows p flows e.1) := by
+  intro e he
+  have hmem := hsub e ((limitRows_sublist off lim sorted).subset he)
+  have hr := finalTable_report p _ (runFlows_nodup_keys p flows) hrows e hmem
+  rw [reportAt_spec p flows hg] at hr
+  split at hr
+  · rename_i hc
+    simp only [Bool.and_eq_true, Bool.not_eq_true', List.isEmpty_eq_false_iff] at hc
+    exact ⟨hc.2, (Option.some.inj hr).symm⟩
+  · cases hr
+
+/-- … at full strength for plans without MIN / MAX. -/
+theorem C09_limit_reported_groups_no_minmax (p : Plan) (flows : List (List TRow))
+    (hp : ∀ m ∈ p.metrics, m.minMaxField = none) (rows sorted : List (Key × List Out))
+    (hrows : finalTable p (runFlows p flows) = some rows) (hsub : ∀ e ∈ sorted, e ∈ rows)
+    (off lim : Option Nat) :
+    ∀ e ∈ limitRows off lim sorted,
+      groupRows p flows e.1 ≠ [] ∧ e.2 = p.metrics.map fun m => spec m (groupRows p flows e.1) :=
+  C09_limit_reported_groups_partial p flows (fun fl _ => goodFlow_of_no_minmax p fl hp) rows sorted hrows hsub off lim
+
+/-- Why a per-flow cut is wrong (the shape of seeded change c09d): three flows hold the groups
+9, 10, 11 of `COUNT BY f0`; if the second flow, which holds all three, keeps only its first two
+groups *in string order* ("10", "11") before the merge, the group "9" that the coordinator reports
+under LIMIT 2 (numeric order) counts 2 rows instead of 3. The model's `runFlows` has no such cut,
+and the first line shows its answer. -/
+theorem C09_flow_cut_before_merge_fails :
+    let p : Plan := ⟨[.countAll], some [0], none, 9, true⟩
+    let r : Int → TRow := fun v => (false, [some ⟨some v, none⟩])
+    let fl1 : List TRow := [r 9, r 10]
+    let fl2 : List TRow := [r 9, r 10, r 11]
+    let fl3 : List TRow := [r 9]
+    reportAt p (runFlows p [fl1, fl2, fl3]) ⟨none, ["9"]⟩ = some [.int 3] ∧
+    reportAt p (coordinate p [intoPartial (sinkAgg p fl1),
+        (intoPartial (sinkAgg p fl2)).filter (fun e => e.1.groups != ["9"]),
+        intoPartial (sinkAgg p fl3)]) ⟨none, ["9"]⟩ = some [.int 2] := by
+  decide
+
 /-! ## where the fold itself departs from the ideal metric -/
 
 /-- What is always true of converter output: every row `ColumnConverter` builds is well-formed,
